@@ -215,3 +215,23 @@ package tls
 // RFC 5246 section 4.7 and 7.4.1.4.1.
 //@ layout DigitallySigned C04 C05: Algorithm struct SignatureAndHashAlgorithm; Signature opaque<0..65535>
 //@ layout SignatureAndHashAlgorithm C04 C05: Hash enum(1); Signature enum(1)
+
+// C05 / C19 (the signing side, used for SCTs, STHs and the witness's cosignatures): the signature is
+// made over the digest of exactly the given data under the hash that was asked for, with the given
+// key, and declares that hash together with the algorithm of the key's type; a hash outside the six
+// TLS hashes or a key that is neither an RSA nor an ECDSA private key value signs nothing.
+//@ func CreateSignature
+//@ props C05 C19
+//@ pure
+//@ site generateHash#1 as gh
+//@ site rsa.SignPKCS1v15#1 as rs
+//@ site ecdsa.Sign#1 as es
+//@ site asn1.Marshal#1 as am
+//@ ensures [declares-the-hash-it-was-asked-for] result0.Algorithm.Hash == hashAlgo
+//@ ensures [an-unsupported-hash-signs-nothing] gh.res2 != nil ==> result1 == gh.res2 && !rs.called && !es.called
+//@ ensures [an-rsa-key-signs-pkcs1-v15-and-says-so] gh.res2 == nil && typeof(privKey) == rsa.PrivateKey ==> rs.called && result0.Algorithm.Signature == RSA && result0.Signature == rs.res0 && result1 == rs.res1
+//@ ensures [an-ecdsa-key-signs-and-says-so] gh.res2 == nil && typeof(privKey) == ecdsa.PrivateKey ==> es.called && result0.Algorithm.Signature == ECDSA && (es.res2 == nil ==> am.called && result0.Signature == am.res0 && result1 == am.res1)
+//@ ensures [any-other-key-signs-nothing] gh.res2 == nil && typeof(privKey) != rsa.PrivateKey && typeof(privKey) != ecdsa.PrivateKey ==> result1 != nil && !rs.called && !es.called
+//@ at gh assert [digest-of-exactly-the-given-data-under-that-hash] gh.algo == hashAlgo && gh.data == data
+//@ at rs assert [signs-that-digest-declaring-its-hash] rs.hashed == gh.res0 && rs.hash == gh.res1
+//@ at es assert [signs-that-digest] es.hash == gh.res0
